@@ -149,7 +149,7 @@ def run(chk):
         ("sim_rand", sim_cfg("sim_rand", [1, 2, 3], [1, 2, 3, 4], 4, all_forms, 40, False, False, catch=2),
          ["-simulate", "num=%d" % (400 if thorough else 60), "-depth", "100", "-seed", str(chk.seed)], 100),
         ("sim_global", sim_cfg("sim_global", [1, 2], [1, 2, 3], 3, all_forms, 24, False, True),
-         ["-simulate", "num=%d" % (60 if thorough else 8), "-depth", "100", "-seed", str(chk.seed)], 20),
+         ["-simulate", "num=%d" % (60 if thorough else 16), "-depth", "100", "-seed", str(chk.seed)], 8),
     ]
     progs = chk.path("programs.ndjson")
     counts = {}
